@@ -197,6 +197,81 @@ def fam_matrix(rng, n, fam):
     raise ValueError(fam)
 
 
+
+def three_scale(rng, n, k, order):
+    """[[D, U], [0, B]]: at elimination step k the pivot column holds three scales (tiny ~1e-13, O(1), small ~1e-9) in the
+    given order at (diagonal, a middle row, a later row); well-conditioned (kappa <= 1e3)"""
+    s_ = n - k
+    for _ in range(200):
+        M = [[0.0] * n for _ in range(n)]
+        for i in range(k):
+            M[i][i] = rng.choice([-1, 1]) * rng.uniform(0.5, 2)
+            for j in range(k, n):
+                M[i][j] = rng.uniform(-1, 1)
+        for i in range(k, n):
+            for j in range(k + 1, n):
+                M[i][j] = rng.uniform(-1, 1)
+        rows = sorted(rng.sample(range(k + 1, n), 2))
+        pos = [k] + rows
+        scale = {"tiny": lambda: rng.choice([-1, 1]) * rng.uniform(1, 9) * 1e-13,
+                 "one": lambda: rng.choice([-1, 1]) * rng.uniform(0.5, 1),
+                 "small": lambda: rng.choice([-1, 1]) * rng.uniform(1, 9) * 1e-9}
+        for i in range(k, n):
+            M[i][k] = rng.choice([0.0, 1e-15 * rng.uniform(-1, 1)])
+        for pp, nm in zip(pos, order):
+            M[pp][k] = scale[nm]()
+        ok, kap = admissible(M)
+        if ok and kap is not None and kap <= 1000:
+            return M
+    return None
+
+
+def residue_singular(rng, n):
+    """exactly singular with non-dyadic entries: a row (column) is +-1, +-2, +-4, 1/2 times another one, bit for bit; the
+    floating-point Laplace determinant may carry a rounding residue"""
+    M = [[rng.randint(-9, 9) / 10.0 for _ in range(n)] for _ in range(n)]
+    for i in range(n):
+        if all(x == 0 for x in M[i]):
+            M[i][0] = 0.3
+    r, p_ = rng.sample(range(n), 2)
+    mult = rng.choice([1.0, -1.0, 2.0, -2.0, 4.0, 0.5])
+    # dependence between rows or between columns.  (Column dependence was a finding on the tree before f4da51d: the
+    # residues the elimination leaves in a finished column became the pivot of the dependent column and Inverse
+    # returned inf with exit status 0; replays/C05-quick-2.json.)
+    if rng.random() < 0.6:
+        M[r] = [mult * x for x in M[p_]]
+    else:
+        for i in range(n):
+            M[i][r] = mult * M[i][p_]
+    assert fdet(M) == 0
+    return M
+
+
+def tiny_scale(rng, n):
+    """well-conditioned matrix times a scale that puts the determinant into the subnormal range (non-zero)"""
+    kind = rng.choice(["id", "sperm", "upper", "int"])
+    for _ in range(100):
+        if kind == "id":
+            B = [[1.0 if i == j else 0.0 for j in range(n)] for i in range(n)]
+        elif kind == "sperm":
+            B = fam_matrix(rng, n, "sperm")
+        elif kind == "upper":
+            B = fam_matrix(rng, n, "upper")
+        else:
+            B = fam_matrix(rng, n, "int")
+        if fdet(B) == 0:
+            continue
+        e = (rng.uniform(308.5, 318.0) if n > 1 else rng.uniform(307.7, 308.25)) / n
+        sc = 10.0 ** (-e)
+        M = [[x * sc for x in row] for row in B]
+        d = fdet(M)
+        if d != 0 and Fraction(2) ** -1070 < abs(d) < Fraction(2) ** -1022:
+            ok, kap = admissible(M)
+            if ok and kap is not None and kap <= 1000 and ninf(finv(M)) < Fraction(10) ** 307:
+                return M
+    return None
+
+
 FAMS = ["rankdef_inexact", "int", "dyadic", "uniform", "perm", "sperm", "zeromin", "tinymin", "upper", "lower", "diag", "sym", "rankdef",
         "graded", "scaled"]
 
@@ -246,6 +321,39 @@ def generate(tier, seed, ctx):
               [[1.0, 2.0, 3.0, 4.0, 5.0], [2.0, 7.0, 1.0, 8.0, 3.0], [3.0, 9.0, 4.0, 12.0, 8.0], [5.0, 3.0, 9.0, 1.0, 7.0], [7.0, 10.0, 10.0, 9.0, 10.0]]):
         for op in ("c05.gate", "c05.det", "c05.invertible", "c05.inverse"):
             R.append(op + " " + mat_tok(M)); ctx["fam"][R[-1]] = "corpus-singular"
+    # three scales in the pivot column, every order, every elimination step
+    import itertools as _it
+    for n in range(3, 8):
+        for k in range(0, n - 2):
+            orders = list(_it.permutations(["tiny", "one", "small"]))
+            if not thorough:
+                orders = [("tiny", "one", "small")] + rng.sample(orders[1:], 2)
+            for order in orders:
+                M = three_scale(rng, n, k, order)
+                if M is None:
+                    bump(ctx, "skipped-outside-quantifier"); continue
+                R.append("c05.inverse " + mat_tok(M)); ctx["fam"][R[-1]] = "three_scale"
+    # exactly singular, non-dyadic entries (the double determinant may be a rounding residue)
+    for n in range(2, 7):
+        for _ in range(12 if thorough else 6):
+            M = residue_singular(rng, n)
+            R.append("c05.gate " + mat_tok(M)); ctx["fam"][R[-1]] = "residue_singular"
+            R.append("c05.inverse " + mat_tok(M)); ctx["fam"][R[-1]] = "residue_singular"
+    col_dep = [[-0.5, -0.4, -0.0, -0.2, 0.4, 0.0], [0.6, 0.1, 0.6, 0.0, 0.3, -0.6], [0.1, 0.1, -0.6, 0.9, -0.8, 0.6],
+               [0.2, 0.6, -0.0, 0.1, -0.5, 0.0], [-0.4, 0.0, 0.5, 0.5, -0.3, -0.5], [-0.9, -0.2, -0.4, 0.8, 0.0, 0.4]]   # col5 = -col2
+    for M in (col_dep, [[0.1, -0.8, -0.1], [0.2, -1.6, -0.2], [-0.3, 0.8, -0.6]], [[0.3, 0.7], [0.3, 0.7]], [[0.1, 0.2, 0.7], [0.9, 0.4, 0.3], [0.1, 0.2, 0.7]]):
+        R.append("c05.gate " + mat_tok(M)); ctx["fam"][R[-1]] = "residue_singular"
+        R.append("c05.inverse " + mat_tok(M)); ctx["fam"][R[-1]] = "residue_singular"
+    # determinant in the subnormal range, matrix well-conditioned
+    for n in range(1, 8):
+        for _ in range(6 if thorough else 3):
+            M = tiny_scale(rng, n)
+            if M is None:
+                bump(ctx, "skipped-outside-quantifier"); continue
+            R.append("c05.gate " + mat_tok(M)); ctx["fam"][R[-1]] = "tiny_scale"
+    for M in ([[1e-308]], [[1e-160, 0.0], [0.0, 1e-160]], [[0.0, 1e-105, 0.0], [0.0, 0.0, -1e-105], [1e-105, 0.0, 0.0]],
+              [[1e-79 * (1.0 + j - i) if j >= i else 0.0 for j in range(4)] for i in range(4)]):
+        R.append("c05.gate " + mat_tok(M)); ctx["fam"][R[-1]] = "tiny_scale"
     # the defect of the pinned tree as a fixed corpus
     for M in ([[0.0, 1.0], [1.0, 0.0]], [[1e-20, 1.0], [1.0, 1.0]], [[0.0, 0.0, 1.0], [0.0, 1.0, 0.0], [1.0, 0.0, 0.0]],
               [[0.0, 2.0, 0.0], [0.0, 0.0, 3.0], [5.0, 0.0, 0.0]], [[1.0, 2.0], [2.0, 4.0]], [[0.0]], [[-4.0]]):
@@ -277,7 +385,7 @@ def parse_mat(a, pos=0):
 
 
 def det_tol(n, scale):
-    return K_DET * (n * n + 4 * n) * EPS * scale
+    return K_DET * (n * n + 4 * n) * EPS * scale + Fraction(math.factorial(n) * 8, 2 ** 1074)   # + subnormal granularity
 
 
 def oracle(op, a, impl, ctx, scale_model=None):
@@ -312,16 +420,21 @@ def oracle(op, a, impl, ctx, scale_model=None):
         k = ti.index("|")
         dv, iv, rest = fl(ti[0]), ti[1], ti[k + 1:]
         d = fdet(M)
-        if iv != ("1" if d != 0 else "0"):
-            return ("Invertible() is not (det != 0)", "det = %r, answer %s" % (float(d), iv))
-        if dv == 0.0 or d == 0:
-            # the library's own determinant vanishes: a diagnostic is the only acceptable outcome
+        if (dv == 0.0) == (d == 0):
+            if iv != ("1" if d != 0 else "0"):
+                return ("Invertible() is not (det != 0)", "det = %r, Determinant() = %r, answer %s" % (float(d), dv, iv))
+        else:
+            ctx["excused"] += 1     # rounding residue / underflow of the floating-point determinant: Invertible() not judged
+        if d == 0:
+            # exactly singular: a diagnostic is the only acceptable outcome, whatever the rounded determinant says
             if rest[:1] != ["err"]:
                 return ("singular matrix: Inverse returned numbers instead of a diagnostic",
                         "Determinant() = %r, Invertible() = %s, Inverse() -> %s" % (dv, iv, " ".join(rest[:6])))
             return None
+        if dv == 0.0:
+            return None             # the double determinant underflowed to 0: outside the quantifier
         if rest[:1] != ["ok"]:
-            return ("invertible matrix: Inverse terminated the process with a diagnostic", "det = %r" % float(d))
+            return ("invertible matrix: Inverse terminated the process with a diagnostic", "det = %r, Determinant() = %r" % (float(d), dv))
         return oracle("c05.inverse", a, "ok " + " ".join(rest[1:]), ctx)
     if not sq:
         if op == "c05.invertible":
@@ -416,7 +529,8 @@ def compare(rq, impl, model, ctx):
         elif op == "c05.gate":
             if "|" in ti and "|" in tm:
                 ki, km = ti.index("|"), tm.index("|")
-                if ti[1] != tm[1] or ti[ki + 1] != tm[km + 1]:
+                agree0 = (fl(ti[0]) == 0.0) == (fr(tm[0]) == 0)
+                if agree0 and (ti[1] != tm[1] or ti[ki + 1] != tm[km + 1]):
                     out.append(fail("corr", "gate: Invertible()/outcome of Inverse() differ from the model", ""))
                 if not close(fl(ti[0]), fr(tm[0]), 1, 0, atol=det_tol(n, rowprod(M))):
                     out.append(fail("corr", "gate: Determinant() differs from the model", ""))
